@@ -161,6 +161,20 @@ def run(ctx):
         tblp = helper.pos_params[3] if len(helper.pos_params) > 3 else "named_schemas"
         from_table = [n for n in rec_calls if n.args and f"{tblp}[" in norm(resolve_local(helper.node, n.args[0]))]
         ctx.check("C12.R3", "a definition taken from the name table is itself processed (references inside it are inlined too)", bool(from_table), helper.where(), "_inline_definitions: definition from named_schemas returned without recursion", "a chain Parent -> Child -> Grandchild of separately parsed pieces leaves 'Grandchild' undefined in the header")
+        # the walk is given the complete name table (a definition taken from it may refer to further ones)
+        for g in p.all_functions():
+            for c in walk_local(g.node):
+                if not (isinstance(c, ast.Call) and isinstance(c.func, ast.Name) and c.func.id == helper.name and p.resolve_func(g.mod, c.func) is helper):
+                    continue
+                targ = c.args[3] if len(c.args) > 3 else next((k.value for k in c.keywords if k.arg == tblp), None)
+                if g is helper:
+                    good = isinstance(targ, ast.Name) and targ.id == tblp and not any(isinstance(x, ast.Name) and x.id == tblp and isinstance(x.ctx, ast.Store) for x in walk_local(helper.node))
+                elif isinstance(targ, ast.Name):
+                    srcs = value_sources(a, g, targ)
+                    good = bool(srcs) and all(k == "param" for k, _ in srcs)
+                else:
+                    good = targ is not None and norm(targ) == "self._named_schemas"
+                ctx.check("C12.R3", f"{g.qualname}: the definitions walk receives the complete name table", good, g.where(c), f"{g.qualname}: {norm(c)[:100]}", "a definition inlined from the table can itself refer to separately parsed types: with a restricted table those stay undefined in the header")
         ok = any(isinstance(n, ast.If) and "in defined" in norm(n.test) for n in walk_local(helper.node)) and any(norm(n) == "defined.add(fullname)" for n in walk_local(helper.node) if isinstance(n, ast.Expr))
         ctx.check("C12.R3", "each name is defined once in the header (set of names defined so far)", ok, helper.where(), "_inline_definitions: defined-so-far bookkeeping", "a type reachable twice would be defined twice (redefined named type on read)")
     _r4(ctx, a)
